@@ -109,6 +109,8 @@ class Ctx:
         if self.replay:
             return          # re-running one recorded counterexample is not a check of the property: the evidence file stays as it is
         evdir = os.environ.get("VERIF_EVIDENCE_DIR") or os.path.join(ROOT, "evidence")      # (seeded-change runs write theirs elsewhere)
+        if not self.pid.startswith("C"):
+            evdir = os.path.join(os.path.dirname(evdir.rstrip("/")), "evidence-extras")       # checks of behaviour beyond the listed properties (X01 ...): not evidence of a property
         os.makedirs(evdir, exist_ok=True)
         with open(os.path.join(evdir, self.pid + ".json"), "w") as fh:
             json.dump(ev, fh, indent=1, default=str)
